@@ -253,7 +253,8 @@ def checks_one(args):
 
 def checks(jobs):
     ms = {m['id']: m for m in load('mutants.jsonl')}
-    surv = [ms[r['id']] for r in load('suite.jsonl') if r['suite'] == 'SUITE_PASS']
+    want = ('SUITE_FAIL', 'TIMEOUT') if '--killed' in sys.argv else ('SUITE_PASS',)
+    surv = [ms[r['id']] for r in load('suite.jsonl') if r['suite'] in want]
     done = set()
     for i in range(64):
         for r in load('checks.w%d.jsonl' % i):
@@ -269,6 +270,13 @@ def checks(jobs):
         for r in load('checks.w%d.jsonl' % i):
             allr[r['id']] = r
     os.makedirs(os.path.join(HERE, 'survey'), exist_ok=True)
+    if '--killed' in sys.argv:
+        with open(os.path.join(HERE, 'survey', 'killed_by_suite.jsonl'), 'a') as fh:
+            for k in sorted(allr):
+                r = allr[k]
+                if r['id'] in set(m['id'] for m in surv):
+                    fh.write(json.dumps({k2: r[k2] for k2 in ('id', 'file', 'line', 'old', 'new', 'orig', 'text', 'fired')}) + '\n')
+        return
     with open(os.path.join(HERE, 'survey', 'results.jsonl'), 'w') as fh:
         for k in sorted(allr):
             r = allr[k]
